@@ -633,3 +633,75 @@ mutant('C08-R3-new-unwrap-on-peer-data', ['C08'], ['C08.R3|unreviewed|frame::win
        [('src/frame/window_update.rs', '''        if size_increment == 0 {
             return Err(Error::InvalidWindowUpdateValue);
         }''', '''        let size_increment = std::num::NonZeroU32::new(size_increment).unwrap().get();''')])
+
+# ---------------------------------------------------------------- C10 / C11 structural
+mutant('C11-R4-literal-prefix-swapped', ['C11', 'C10'], ['decoder-prefix|decode_literal|flag'],
+       'decode_literal reads indexed literals with a 4-bit prefix and the others with 6',
+       [(H + 'decoder.rs', 'let prefix = if index { 6 } else { 4 };', 'let prefix = if index { 4 } else { 6 };')],)
+mutant('C11-R4-representation-mask', ['C11', 'C10'], ['R4|repr|', 'C10.R2|repr|'],
+       'Representation::load classifies 0001xxxx (never indexed) bytes as size updates',
+       [(H + 'decoder.rs', 'const LITERAL_NEVER_INDEXED: u8 = 0b0001_0000;', 'const LITERAL_NEVER_INDEXED: u8 = 0b0011_0000;')])
+mutant('C10-R2-size-update-prefix', ['C10'], ['C10.R2|encoder-prefix|encode_size_update'],
+       'the encoder writes dynamic-table size updates with a 4-bit prefix',
+       [(H + 'encoder.rs', 'encode_int(val, 5, 0b0010_0000, dst)', 'encode_int(val, 4, 0b0010_0000, dst)')])
+mutant('C10-R3-size-update-after-fields', ['C10'], ['C10.R3|size-update|first'],
+       'a table size reduction is signalled after the fields of the block',
+       [(H + 'encoder.rs', '''        self.encode_size_updates(dst);
+
+        let mut last_index = None;
+''', '''        let mut last_index = None;
+'''), (H + 'encoder.rs', '''                        dst,
+                    );
+                }
+            }
+        }
+    }
+
+    fn encode_size_updates''', '''                        dst,
+                    );
+                }
+            }
+        }
+        self.encode_size_updates(dst);
+    }
+
+    fn encode_size_updates''')])
+mutant('C10-R3-sensitive-value-indexed', ['C10'], ['C10.R2|sensitive|encode_not_indexed'],
+       'sensitive header values are written as plain literals without indexing instead of never-indexed',
+       [(H + 'encoder.rs', '''    if sensitive {
+        encode_int(name, 4, 0b10000, dst);
+    } else {''', '''    if sensitive && name == 0 {
+        encode_int(name, 4, 0b10000, dst);
+    } else {''')])
+mutant('C11-R5-consume-before-decode', ['C11'], ['C11.R5|resume|decode_indexed'],
+       'the Indexed arm consumes the input before the field was decoded: a short read loses bytes',
+       [(H + 'decoder.rs', '''                    let entry = self.decode_indexed(src)?;
+                    consume(src);''', '''                    consume(src);
+                    let entry = self.decode_indexed(src)?;''')])
+mutant('C11-R4-size-update-mid-block', ['C11'], ['C11.R4|size-update|field-clears-flag'],
+       'a never-indexed literal does not end the window in which table size updates are allowed',
+       [(H + 'decoder.rs', '''                    tracing::trace!(rem = src.remaining(), kind = %"LiteralNeverIndexed");
+                    can_resize = false;''', '''                    tracing::trace!(rem = src.remaining(), kind = %"LiteralNeverIndexed");''')])
+mutant('C11-R2-huffman-accepts-truncated-symbol', ['C11'], ['C11.R4|huffman|complete-symbol'],
+       'huffman::decode returns Ok although a symbol is half decoded',
+       [(H + 'huffman/mod.rs', '''    if table == 0 {
+        Ok(buf.split())
+    } else {
+        Err(DecoderError::InvalidHuffmanCode)
+    }''', '''    let _ = table;
+    Ok(buf.split())''')])
+mutant('C11-R6-eviction-without-accounting', ['C11'], ['C11.R6|table|evict|reserve'],
+       'the decoder table evicts entries without decreasing its size',
+       [(H + 'decoder.rs', '''            match self.entries.pop_back() {
+                Some(last) => {
+                    self.size -= last.len();
+                }
+                None => return,
+            }
+        }
+    }''', '''            match self.entries.pop_back() {
+                Some(_last) => {}
+                None => return,
+            }
+        }
+    }''')])
